@@ -252,7 +252,8 @@ Print Assumptions fixed_parameters_partial.
    fit shape, one masked pixel; the fitter answers (x+id, y, 10*id) for the sub-model named id *)
 Definition ex_fitter (k : nat) (ci : callin) : fitout :=
   mkFit (map (fun '(i, (x, y, f)) => (x + i, y, 10 * i)) (combine (ci_ids ci) (ci_init ci)))
-        (Some 1) None (Some (flat_map (fun i => [i; i; i]) (ci_ids ci))) None None.
+        (Some 1) None (Some (flat_map (fun i => [i; i; i]) (ci_ids ci))) None None
+        (map (fun i => [100 + i]) (ci_ids ci)).
 Definition ex_srcs : list src :=
   [ mkSrc 1 7 16 16 5 0; mkSrc 2 3 48 48 6 0; mkSrc 3 7 24 16 7 0; mkSrc 4 3 56 0 8 0 ].
 Definition ex_mask : option (list bool) :=
@@ -264,10 +265,10 @@ Example ex_hypotheses : Permutation (map s_id ex_srcs) (default_ids (length ex_s
 Proof. split; [apply Permutation_refl|vm_compute; reflexivity]. Qed.
 (* id, group_id, group_size, x_fit, flux_fit, npixfit, flags: every row carries its own source *)
 Example ex_rows :
-  map (fun row => (s_id (o_src row), s_gid (o_src row), o_gsize row, o_fit row, o_npix row, o_flags row))
+  map (fun row => (s_id (o_src row), s_gid (o_src row), o_gsize row, o_fit row, o_npix row, o_flags row, o_ext row))
       (res_rows ex_result)
-  = [ (1, 7, 2, (17, 16, 10), 8, 1); (2, 3, 2, (50, 48, 20), 9, 0);
-      (3, 7, 2, (27, 16, 30), 8, 1); (4, 3, 2, (60, 0, 40), 6, 1) ].
+  = [ (1, 7, 2, (17, 16, 10), 8, 1, [101]); (2, 3, 2, (50, 48, 20), 9, 0, [102]);
+      (3, 7, 2, (27, 16, 30), 8, 1, [103]); (4, 3, 2, (60, 0, 40), 6, 1, [104]) ].
 Proof. vm_compute. reflexivity. Qed.
 (* the calls: group 3 first (ids 2,4), then group 7 (ids 1,3) *)
 Example ex_calls : map ci_ids (res_calls ex_result) = [[2; 4]; [1; 3]].
@@ -276,7 +277,7 @@ Proof. vm_compute. reflexivity. Qed.
 Example ex_recovery_hypothesis : exists (fitter : nat -> callin -> fitout) (truth : Z -> Z * Z * Z),
   forall k ci, fo_par (fitter k ci) = map truth (ci_ids ci).
 Proof.
-  exists (fun _ ci => mkFit (map (fun i => (i, i, i)) (ci_ids ci)) None None None None None),
+  exists (fun _ ci => mkFit (map (fun i => (i, i, i)) (ci_ids ci)) None None None None None []),
          (fun i => (i, i, i)). reflexivity.
 Qed.
 (* ... and so is that of fixed_parameters_partial (fitter returning the initial values) *)
@@ -284,7 +285,7 @@ Example ex_fixed_hypothesis : exists (fitter : nat -> callin -> fitout),
   forall k ci j v, nth_error (ci_init ci) j = Some v ->
                    agree_fixed (true, true, false) (nth j (fo_par (fitter k ci)) (0, 0, 0)) v.
 Proof.
-  exists (fun _ ci => mkFit (ci_init ci) None None None None None). intros k ci j [[x y] f] H. cbn [fo_par].
+  exists (fun _ ci => mkFit (ci_init ci) None None None None None []). intros k ci j [[x y] f] H. cbn [fo_par].
   rewrite (nth_of_nth_error _ _ _ (0, 0, 0) H). cbn. auto.
 Qed.
 
